@@ -19,6 +19,7 @@ package window
 import (
 	"context"
 	"fmt"
+	"github.com/rulego/streamsql/utils/verifhook"
 	"reflect"
 	"sort"
 	"strings"
@@ -435,6 +436,7 @@ func (sw *SessionWindow) checkExpiredSessions() {
 }
 
 func (sw *SessionWindow) checkAndTriggerSessions(watermarkTime time.Time) {
+	verifhook.Yield("session.trigger.before-lock")
 	sw.mu.Lock()
 	resultsToSend := sw.collectExpiredSessions(watermarkTime)
 	sw.closeExpiredSessions(watermarkTime)
